@@ -141,6 +141,7 @@ impl Renderer {
             E::Sym(s) => self.recase(D_CASE_SYM, s),
             E::Pc => self.recase(D_CASE_SYM, "pc"),
             E::Arg(n) => format!("@{}", n),
+            E::Big(t) | E::Flag(t) => t.clone(),
             E::Par(a) => {
                 let a_ = self.expr(a);
                 let (l, r) = (self.ws0(), self.ws0());
@@ -479,6 +480,7 @@ pub fn render_full_parens(e: &E) -> String {
         E::Sym(s) => s.clone(),
         E::Pc => "pc".into(),
         E::Arg(n) => format!("@{}", n),
+        E::Big(t) | E::Flag(t) => t.clone(),
         E::Par(a) => format!("({})", render_full_parens(a)),
         E::Fn(f, a) => format!("{}({})", f.text(), render_full_parens(a)),
         E::Un(op, a) => format!("({}({}))", op.text(), render_full_parens(a)),
